@@ -55,6 +55,58 @@ class NoteGen(h_doc.Gen):
             items_n.append([n0] + cn); items_v.append([v0] + cv)
         return ({'k': k, 'items': items_n}, h.bullets(items_v) if k == 'Bullet' else h.ordered(items_v))
 
+def blocks_to_neutral(blocks):
+    """projected GraphBlocks (neutral JSON) -> input tree of the doc pipeline: what re-reading the formatted note yields
+    (the text layer in between is assumed shape-preserving; stated in the evidence)"""
+    out = []
+    def text(inl):
+        return h_doc.inl_text(inl)
+    def links(inl):
+        return [i for i in inl if i.get('_v') == 'Link']
+    for b in blocks:
+        v = b['_v']
+        if v in ('Para', 'Plain'):
+            inl = b['_0']
+            if len(inl) == 1 and inl[0].get('_v') == 'Link':
+                f = inl[0]['_f']
+                out.append({'k': 'Ref', 't': text(f[3]), 'url': f[0]})
+            else:
+                out.append({'k': 'Para', 't': text(inl)})
+        elif v == 'Header':
+            out.append({'k': 'Header', 't': text(b['_f'][1]), 'lv': b['_f'][0]})
+        elif v == 'CodeBlock':
+            out.append({'k': 'Code', 't': b['_f'][1], 'lang': b['_f'][0]})
+        elif v == 'HorizontalRule':
+            out.append({'k': 'Rule'})
+        elif v == 'BlockQuote':
+            out.append({'k': 'Quote', 'c': blocks_to_neutral(b['_0'])})
+        elif v in ('BulletList', 'OrderedList'):
+            out.append({'k': 'Bullet' if v == 'BulletList' else 'Ordered', 'items': [blocks_to_neutral(it) for it in b['_0']]})
+        else:
+            raise Unsupported('blocks_to_neutral: ' + v)
+    return out
+
+def neutral_to_vals(h, blocks, line=None):
+    line = line if line is not None else [0]
+    def lr(n=1):
+        r = h.rng(line[0], line[0] + n); line[0] += n + 1
+        return r
+    out = []
+    for b in blocks:
+        k = b['k']
+        if k == 'Para': out.append(h.para([h.istr(b['t'])], lr()))
+        elif k == 'Header': out.append(h.header(b['lv'], [h.istr(b['t'])], lr()))
+        elif k == 'Ref': out.append(h.para([h.ilink(b['url'], b['t'])], lr()))
+        elif k == 'Code': out.append(h.code(b['t'], b.get('lang'), lr(3)))
+        elif k == 'Rule': out.append(h.rule(lr()))
+        elif k == 'Quote': out.append(h.quote(neutral_to_vals(h, b['c'], line), lr(0)))
+        elif k in ('Bullet', 'Ordered'):
+            items = [neutral_to_vals(h, it, line) for it in b['items']]
+            out.append(h.bullets(items) if k == 'Bullet' else h.ordered(items))
+        else:
+            raise Unsupported('neutral_to_vals: ' + k)
+    return out
+
 def flat_tokens(seq):
     return list(tokens_of(seq))
 
@@ -142,6 +194,7 @@ class ActionsHarness(Harness):
     def __init__(self, prog, tier='quick', mode='all'):
         Harness.__init__(self, prog, tier)
         self.mode = mode
+        self.two_step = True
         self.providers = PROVIDERS
         self.kinds = ('Para', 'Header', 'Ref', 'Bullet', 'Ordered', 'Quote')
         self.nest = 2
@@ -237,9 +290,89 @@ class ActionsHarness(Harness):
         changes = self.read_changes(ch.f[0].v)
         info['changes'] = [(c[0], c[1]) for c in changes]
         self.judge(prov, tid, nodes, an, orig_a, orig_b, changes, ctx.law, info, ctx, src=src)
+        if self.two_step and not ctx.violations:
+            self.second_step(ctx, ex, prov, tid, nodes, src, layout, orig_a, bn, bv, changes, info)
         if self.tv_pick(ctx.trace):
             ctx.tv = None
         return dict(info, offered=True)
+
+    # ---- the inverse action on the edited note restores the formatted original
+    def second_step(self, ctx, ex, prov, tid, nodes, src, layout, orig_a, bn, bv, changes, info):
+        h = self.h
+        inverse = {'ListChangeType': 'ListChangeType', 'SectionToList': 'ListToSections', 'SectionExtract': 'ReferenceInlineSection'}.get(prov)
+        if inverse is None:
+            return
+        ttext = nodes[tid].get('text')
+        updates = {k: b for op, k, b in changes if op == 'Update'}
+        new_src = updates.get(src)
+        if not isinstance(new_src, list):
+            return
+        seq = out_seq(new_src, [])
+        if prov == 'SectionToList':
+            # only when the new list is not adjacent to another list (the statement's side condition)
+            p = item_list_path(seq, ttext)
+            if p is None or len(p) != 1:
+                return
+            i = p[0]
+            if (i > 0 and seq[i - 1][0] in ('Bullet', 'Ordered')) or (i + 1 < len(seq) and seq[i + 1][0] in ('Bullet', 'Ordered')):
+                return
+        if prov == 'SectionExtract':
+            # only for the first sub-section of its parent (the statement's side condition), and only top-level parents
+            parent = nodes[tid].get('prev')
+            if parent is None or nodes[parent]['kind'] != 'Section' or nodes[parent].get('child') is None:
+                return
+            first_sub = None
+            i = nodes[parent]['child']
+            while i is not None:
+                if nodes[i]['kind'] == 'Section':
+                    first_sub = i; break
+                i = nodes[i].get('next')
+            if first_sub != tid:
+                return
+        docs = [(src, neutral_to_vals(h, blocks_to_neutral(new_src)))]
+        for k, b in updates.items():
+            if k != src and isinstance(b, list):
+                docs.append((k, neutral_to_vals(h, blocks_to_neutral(b))))
+        docs.append(('d/b', bv))
+        g2, gref2 = self.build(ctx, ex, docs)
+        saved = self.gref
+        self.gref = gref2
+        try:
+            nodes2 = h_doc.arena_std(g2)
+            root2 = g2.get('keys').d[('model::Key', src)][1].v
+            ends = sorted(c.v for k, (kv, c) in g2.get('keys').d.items())
+            nxt = min([r for r in ends if r > root2] or [len(nodes2)])
+            cand = None
+            for n in nodes2:
+                if root2 < n.get('id', -1) < nxt:
+                    if inverse == 'ReferenceInlineSection':
+                        if n['kind'] == 'Reference' and n.get('ref_text') == ttext:
+                            cand = n['id']; break
+                    elif n['kind'] == 'Section' and n.get('text') == ttext:
+                        cand = n['id']; break
+            if cand is None:
+                ctx.law('%s.inverse-action-target-exists' % ('C09' if prov == 'SectionExtract' else 'C10'), False, dict(info, looking_for=ttext, after_first_action=seq))
+                return
+            pv = Struct('router::server::action::' + inverse, [], [])
+            cx = Opaque('HarnessActionContext')
+            act = ex.call('<%s as ActionProvider>::action::<Ctx>' % inverse, [Ref(Cell(pv)), cand, cx])
+            lawp = 'C09' if prov == 'SectionExtract' else 'C10'
+            if not ctx.law(lawp + '.inverse-action-is-offered', act.vi == 1, dict(info, inverse=inverse, after_first_action=seq)):
+                return
+            ch = ex.call('<%s as ActionProvider>::changes::<Ctx>' % inverse, [Ref(Cell(pv)), cand, cx])
+            if ch.vi != 1:
+                ctx.law(lawp + '.inverse-action-is-offered', False, dict(info, inverse=inverse))
+                return
+            ch2 = self.read_changes(ch.f[0].v)
+            back = [b for op, k, b in ch2 if op == 'Update' and k == src]
+            got = out_seq(back[0], []) if back and isinstance(back[0], list) else None
+            name = {'ListChangeType': 'C10.changing-the-list-type-twice-restores-the-note',
+                    'SectionToList': 'C10.section-to-list-then-list-to-sections-restores-the-note',
+                    'SectionExtract': 'C09.extract-first-sub-section-then-inline-restores-the-note'}[prov]
+            ctx.law(name, got == orig_a, dict(info, original=orig_a, after_first=seq, after_second=got))
+            ctx.cover('two-step:' + prov)
+        finally:
+            self.gref = saved
 
     def project(self, ex, gref, key, parent):
         t = ex.call('<&Graph as GraphContext>::collect', [Ref(Cell(gref)), Ref(Cell(self.h.key(key)))])
